@@ -285,6 +285,30 @@ def run_case(case):
                 resid = float((Ar @ torch.linalg.matrix_power(Xh.to(torch.float64), r.numerator) - torch.eye(n, dtype=torch.float64)).abs().max())
                 if resid > 0.1 * (1 + 0.05) + 64 * n * u * cond:
                     raise Violation(f"higher-order returned X with residual ||A_ridge X^p - I||_max = {resid:.3g} > guard 0.1", **desc)
+                # Beyond 1/u the bound above is vacuous although the guard is not: whatever working-precision evaluation of the
+                # residual the solver uses, it lies among (or near) the probes below.  Probes only add admissible behaviours: it is a
+                # violation only if the exact residual (float64 evaluation of the returned X) AND every working-dtype evaluation order
+                # exceed the guard by half its value - then no residual-based guard can have let this X through.
+                p_ = r.numerator
+                eps_w = float(max(cfg.rel_epsilon * torch.linalg.matrix_norm(A, float("inf")), eps))
+                Aw = torch.add(A, ident, alpha=eps_w)
+                chain_l, chain_r = Aw, Xh
+                for _ in range(p_):
+                    chain_l = chain_l @ Xh
+                for _ in range(p_ - 1):
+                    chain_r = Xh @ chain_r
+                probes = {
+                    "float64": resid,
+                    "A@power(X,p)": float((Aw @ torch.linalg.matrix_power(Xh, p_) - ident).abs().max()),
+                    "((A@X)@X)...": float((chain_l - ident).abs().max()),
+                    "power(X,p)@A": float((torch.linalg.matrix_power(Xh, p_) @ Aw - ident).abs().max()),
+                    "X@(X@...)@A": float((chain_r @ Aw - ident).abs().max()),
+                }
+                counters["guard_probe_sets"] = counters.get("guard_probe_sets", 0) + 1
+                if min(probes.values()) > 0.1:
+                    counters["guard_probes_all_above_guard"] = counters.get("guard_probes_all_above_guard", 0) + 1
+                if all(v == v for v in probes.values()) and min(probes.values()) > 0.15:
+                    raise Violation(f"higher-order returned X although every evaluation of its residual ||A_ridge X^p - I||_max exceeds the 0.1 guard (smallest {min(probes.values()):.3g})", probes=probes, **desc)
         if sample is None and n >= 2 and applicable:
             sample = dict(desc, cond=cond, rel_error=err, bound=bound)
     return {"counters": counters, "sigs": sorted(sigs), "sample": sample}
